@@ -123,7 +123,9 @@ def shadow(runner, vals):
 
 ERR_FUNCS = {"returns-error": host_err, "raises-ValueError": host_raise_value, "raises-TypeError": host_raise_type}
 ERR_CTX = {"f(a) > 0 || true": True, "true || f(a) > 0": True, "f(a) > 0 && false": False, "false && f(a) > 0": False,
-           "true ? 7 : f(a)": 7, "f(a)": "error", "f(a) > 0 || false": "error", "a.f() > 0 || true": True}
+           "true ? 7 : f(a)": 7, "f(a)": "error", "f(a) > 0 || false": "error", "a.f() > 0 || true": True,
+           "a.f(1) > 0 || true": True, "a.f(2.5, [a]) > 0 || true": True, "a.f('s')": "error", "f(a, 1, 'x') > 0 || true": True, "[a].f(a) == 1 && false": False,
+           "a.f(1u)": "error", "false ? 1 : a.f(a, a)": "error"}
 
 
 def error_behaviour(src, errkind, runner, vals):
@@ -145,14 +147,20 @@ def error_behaviour(src, errkind, runner, vals):
 
 def unbound(runner, vals):
     from celpy import celtypes as ct
-    for src, want in (("nosuch(a)", "error"), ("a.nosuch()", "error"), ("nosuch(a) > 0 || true", "value")):
+    decls = {"limit": ct.IntType, "label": ct.StringType, "a": ct.IntType}
+    for src, want, ann in (("nosuch(a)", "error", None), ("a.nosuch()", "error", None), ("nosuch(a) > 0 || true", "value", None),
+                           ("limit(a)", "error", decls), ("a.limit()", "error", decls), ("label(a)", "error", decls), ("limit(a) > 0 || true", "value", decls),
+                           ("a.label() == 'x' && false", "value", decls)):
         try:
-            prog = make_program(src, runner, functions={"f": host_f})
+            prog = make_program(src, runner, functions={"f": host_f}, annotations=ann)
         except Exception as ex:  # noqa: BLE001
             return False, f"`{src}` under {runner}: program construction raised {type(ex).__name__}"
-        kd, r = evaluate_outcome(lambda: prog.evaluate({"a": ct.IntType(vals["a"])}))
-        if kd != want:
-            return False, f"`{src}` under {runner}: expected {want}, got {kd} {r!r:.100}"
+        for extra in ({}, {"limit": ct.IntType(3), "label": ct.StringType("x")}):
+            if extra and ann is None:
+                continue
+            kd, r = evaluate_outcome(lambda: prog.evaluate({"a": ct.IntType(vals["a"]), **extra}))
+            if kd != want:
+                return False, f"`{src}` under {runner}{' (name is a declared variable, bound)' if extra else ''}: no function of that name is bound, expected {want}, got {kd} {r!r:.100}"
     return True, "ok"
 
 
